@@ -3,6 +3,8 @@ package main
 import (
 	"fmt"
 	"sort"
+
+	"golang.org/x/tools/go/ssa"
 )
 
 func runSelftest() int { return 0 }
@@ -34,9 +36,29 @@ func runDump(args []string) {
 				}
 			}
 		}
+	case "appends":
+		dumpAppends(p, args[1])
 	case "funcs":
 		for _, f := range p.Funcs {
 			fmt.Println(f.Pkg.PkgPath, f.Name())
 		}
+	}
+}
+
+func dumpAppends(p *Program, name string) {
+	for _, fn := range p.SSAFuncs() {
+		if ssaFuncName(fn) != name {
+			continue
+		}
+		forEachInstr(fn, func(owner *ssa.Function, in ssa.Instruction) {
+			switch in := in.(type) {
+			case *ssa.Call:
+				if b, ok := in.Call.Value.(*ssa.Builtin); ok && b.Name() == "append" {
+					fmt.Println("append", p.Pos(in.Pos()), valuePaths(in.Call.Args[0]))
+				}
+			case *ssa.Store:
+				fmt.Println("store", p.Pos(in.Pos()), in.Addr.Name(), valuePaths(in.Addr), "<-", valuePaths(in.Val))
+			}
+		})
 	}
 }
